@@ -229,3 +229,38 @@ theorem sortBy_map {α β : Type} (le : α → α → Bool) (le' : β → β →
     rw [ih, insertBy_map le le' f hle]
 
 end Kapture.C01
+
+namespace Kapture.C01
+open Kapture.Csv Kapture.Gen.RecordSchemas
+variable {F : Type}
+
+/-- a field of a record row that its declared type cannot read makes the whole row an error, wherever it stands: the rows
+  before it are fine, the rows after it are not looked at -/
+theorem decodeFields_bad (c : Codec F) : ∀ (tys : List Ty) (toks : List Str) (i : Nat) (hi : i < tys.length)
+    (hlen : tys.length = toks.length), decodeVal c (tys[i]) (toks[i]'(hlen ▸ hi)) = none →
+    ∃ e, decodeFields c tys toks = Except.error e := by
+  intro tys
+  induction tys with
+  | nil => intro toks i hi; simp at hi
+  | cons ty tys ih =>
+    intro toks i hi hlen hbad
+    cases toks with
+    | nil => simp at hlen
+    | cons s ss =>
+      unfold decodeFields
+      cases i with
+      | zero =>
+        simp only [List.getElem_cons_zero] at hbad
+        rw [hbad]
+        exact ⟨_, rfl⟩
+      | succ j =>
+        simp only [List.getElem_cons_succ] at hbad
+        cases decodeVal c ty s with
+        | none => exact ⟨_, rfl⟩
+        | some v =>
+          dsimp only
+          obtain ⟨e, he⟩ := ih ss j (by simpa using hi) (by simpa using hlen) hbad
+          rw [he]
+          exact ⟨e, rfl⟩
+
+end Kapture.C01
